@@ -4,7 +4,7 @@ from props.fsmlib import *
 def cases(tier):
     L = []
     T = 1 if tier == 'quick' else 3
-    fams = [('futil', [(5, 2), (6, 5), (5, 5), (6, 2)])] if tier == 'quick' else [('futil', [(5, 2), (6, 5), (5, 5), (6, 2)]), ('fnu', [(5, 2), (6, 2)]), ('fn4', [(6, 0), (5, 0)])]
+    fams = [('futil', [(5, 2), (6, 5), (5, 5), (6, 2)]), ('fnu', [(5, 2), (6, 2)])] if tier == 'quick' else [('futil', [(5, 2), (6, 5), (5, 5), (6, 2)]), ('fnu', [(5, 2), (6, 2)]), ('fn4', [(6, 0), (5, 0)])]
     FAMILY.setdefault('fn4', ('N:Apex(A, B, C, D)', 'random root of width 4'))
     for fam, reqs in fams:
         o = dict(sublimit=2, callbacks=['life', 'util', 'select'], act=[], kinds=0)
